@@ -505,9 +505,9 @@ package astits
 
 // writePacket: sync byte, header, adaptation field, payload, 0xff padding up to targetPacketSize.
 //@ func writePacket
-//@   requires aligned(w) && p != nil && 0 <= wN(w) && wN(w) < 0x1000000000000 && 0 < targetPacketSize && targetPacketSize < 0x10000
+//@   requires aligned(w) && p != nil && 0 <= wN(w) && wN(w) < 0x800000000000 && 0 < targetPacketSize && targetPacketSize < 0x10000
 //@   requires p.Header.HasAdaptationField ==> afOK(p.AdaptationField) && afBody(p.AdaptationField) <= 255
-//@   requires allocated(p.Payload) && len(p.Payload) < 0x10000
+//@   requires allocated(p.Payload) && 0 <= len(p.Payload) && len(p.Payload) < 0x10000
 //@   modifies writer(w)
 //@   let n0 = old(wN(w))
 //@   let afb = ite(p.Header.HasAdaptationField, afBytes(p.AdaptationField), 0)
@@ -519,4 +519,5 @@ package astits
 //@   ensures [C18] surfaced: wF(w) != old(wF(w)) ==> retErr != nil
 //@   loop 0 invariant [W] pad: aligned(w) && written <= targetPacketSize && wN(w) == atentry(wN(w)) + iter && written == atentry(written) + iter
 //@   loop 0 invariant [W] ePad: fits && atentry(written) == 4 + afb + ite(p.Header.HasPayload, len(p.Payload), 0) && atentry(wN(w)) == n0 + atentry(written)
+//@   loop 0 invariant [C18] nofail: wF(w) == old(wF(w))
 //@   loop 0 decreases [W] targetPacketSize - written
